@@ -129,6 +129,7 @@ type ersView struct {
 	deletes     []*sim.Call
 	patches     []*sim.Call
 	statusOK    bool
+	statusTried bool // a status write of the replica set was attempted (whatever its fate)
 	pods        []*corev1.Pod
 	podsByNode  map[string][]*corev1.Pod
 	canaryNodes []string
@@ -169,6 +170,9 @@ func viewERS(r *sim.Record) *ersView {
 			v.patches = append(v.patches, c)
 		case c.Verb == "status-update" && c.Kind == "ExtendedDaemonSetReplicaSet" && c.Err == "":
 			v.statusOK = true
+		}
+		if (c.Verb == "status-update" || c.Verb == "status-patch") && c.Kind == "ExtendedDaemonSetReplicaSet" {
+			v.statusTried = true
 		}
 	}
 	v.pods = edsPods(r.Pre, v.eds)
@@ -688,7 +692,9 @@ func rate(r *sim.Record, v *ersView, h *History) []V {
 				out = append(out, V{"C09", "rate", "C09/rate/syncs-closer-than-reconcileFrequency", fmt.Sprintf("replica set %s created/deleted pods in two syncs %s apart (steps %d and %d) although reconcileFrequency is %s and the first status write succeeded", v.rs.Name, gap, prev.step, r.Step, v.eds.Spec.Strategy.ReconcileFrequency.Duration)})
 			}
 		}
-		h.lastWriteSync[key] = writeSync{at: r.Pre.Now, statusOK: v.statusOK, step: r.Step}
+		// the spacing obligation stands when the sync's status write succeeded - and also when the sync met no failing call
+		// and simply did not write its status (the time of a sync that touched pods has to be recorded)
+		h.lastWriteSync[key] = writeSync{at: r.Pre.Now, statusOK: v.statusOK || (!v.statusTried && !v.faulted && r.Err == nil && r.Panic == nil), step: r.Step}
 	}
 	return out
 }
@@ -845,6 +851,26 @@ func canaryLabel(r *sim.Record, v *ersView) []V {
 			}
 		}
 	case oracle.RoleActive:
+		// the active set's label clean-up concerns its own pods: the pods of a canary that runs meanwhile keep their label
+		if cn := v.eds.Status.Canary; cn != nil && cn.ReplicaSet != v.rs.Name {
+			for _, p := range r.Pre.Pods {
+				if p.Namespace != v.rs.Namespace || p.Labels[oracle.LabelRSName] != cn.ReplicaSet || p.Labels[oracle.LabelCanary] != "true" {
+					continue
+				}
+				wrote := false
+				for _, c := range r.Calls {
+					if c.Kind == "Pod" && c.Write && c.Applied && c.NS == p.Namespace && c.Name == p.Name {
+						wrote = true
+					}
+				}
+				if q := r.Post.PodByKey(p.Namespace, p.Name); wrote && q != nil && q.Labels[oracle.LabelCanary] != "true" {
+					out = append(out, V{"C04", "canary-label", "C04/canary-label/removed-from-canary-pod-by-active-sync", fmt.Sprintf("the sync of the active replica set %s removed the canary label from pod %s of the running canary %s", v.rs.Name, p.Name, cn.ReplicaSet)})
+				}
+			}
+		}
+		if len(out) > 0 {
+			return out
+		}
 		if c := oracle.RSCond(&v.rs.Status, edsv1.ConditionTypeActive); c != nil && c.Status == corev1.ConditionTrue && r.Pre.Now.Sub(c.LastTransitionTime.Time) >= 5*time.Minute-2*time.Second {
 			return nil // the controller documents that it only retries label removal for five minutes
 		}
